@@ -287,14 +287,17 @@ Definition estimate_gpus (gs : list gpu) (m : model) (o : opts) : option result 
 Definition requested (g : gpu) : str :=
   match g_var g with [] => g_lib g | v => g_lib g ++ [95] ++ v end.
 
-Fixpoint add_to (key : str) (g : gpu) (groups : list (str * list gpu)) : list (str * list gpu) :=
+Fixpoint add_to {A} (key : str) (g : A) (groups : list (str * list A)) : list (str * list A) :=
   match groups with
   | [] => [(key, [g])]
   | (k, l) :: rest => if eqb_str k key then (k, l ++ [g]) :: rest else (k, l) :: add_to key g rest
   end.
 
-Definition by_library (l : list gpu) : list (list gpu) :=
-  map snd (fold_left (fun acc g => add_to (requested g) g acc) l []).
+(** ByLibrary over any record that carries a library/variant key (the scheduler's GPU records carry more fields) *)
+Definition by_library_gen {A} (key : A -> str) (l : list A) : list (list A) :=
+  map snd (fold_left (fun acc g => add_to (key g) g acc) l []).
+
+Definition by_library (l : list gpu) : list (list gpu) := by_library_gen requested l.
 
 (** the fit test of PredictServerFit for one library group *)
 Definition fits_fully (m : model) (o : opts) (layers : N) : bool :=
